@@ -229,6 +229,15 @@ def _shapes(tier: str, seed: int) -> List[dict]:
         ("BinOp", "Add", I, ("BinOp", "Mult", I, I)),                    # every occurrence replaced
         ("CLambda", I, "Any", ("Lambda", ("Id", N, ()),
                                ("CLambda", I, "All", ("Lambda", ("Id", N, ()), ("Compare", "Eq", gen.path_shape(1), I))))),
+        # the outer lambda variable is used again AFTER an inner lambda closed (scoping must be a stack: the inner
+        # variable may be the same name)
+        ("CLambda", I, "Any", ("Lambda", ("Id", ("$", 0), ()),
+                               ("BoolOp", "And", ("CLambda", gen.path_shape(1, root=("$", 0)), "Any",
+                                                  ("Lambda", ("Id", N, ()), ("Compare", "Eq", I, ("Int", "1")))),
+                                ("Compare", "Lt", gen.path_shape(1, root=("$", 0)), I)))),
+        # the same name outside the lambda, after it, is a field again
+        ("BoolOp", "Or", ("CLambda", I, "Any", ("Lambda", ("Id", N, ()), ("Compare", "Eq", I, ("Int", "1")))),
+         ("Compare", "Eq", I, I)),
     ]
     d1 = list(gen.expr_shapes(1, leaves[:5], named=True, sym_ops=True))
     d2 = list(gen.expr_shapes(2, [I, gen.path_shape(1), gen.path_shape(2)], named=True, sym_ops=False))
